@@ -26,16 +26,33 @@ ULEN = z3.RecFunction("uleb_len", z3.IntSort(), z3.IntSort())
 UBYTE = z3.RecFunction("uleb_byte", z3.IntSort(), z3.IntSort(), z3.IntSort())
 SLEN = z3.RecFunction("sleb_len", z3.IntSort(), z3.IntSort())
 SBYTE = z3.RecFunction("sleb_byte", z3.IntSort(), z3.IntSort(), z3.IntSort())
-z3.RecAddDefinition(ULEN, [_n], z3.If(_n < 128, 1, 1 + ULEN(_n / 128)))
-z3.RecAddDefinition(UBYTE, [_n, _j], z3.If(_j <= 0, z3.If(_n < 128, _n % 128, _n % 128 + 128), UBYTE(_n / 128, _j - 1)))
 
 
 def _slast(n):
     return z3.Or(z3.And(n / 128 == 0, n % 128 < 64), z3.And(n / 128 == -1, n % 128 >= 64))
 
 
-z3.RecAddDefinition(SLEN, [_n], z3.If(_slast(_n), 1, 1 + SLEN(_n / 128)))
-z3.RecAddDefinition(SBYTE, [_n, _j], z3.If(_j <= 0, z3.If(_slast(_n), _n % 128, _n % 128 + 128), SBYTE(_n / 128, _j - 1)))
+# the bodies, as functions of the argument terms: used for the definitions below AND for definitional unfoldings at given terms
+def ulen_body(n):
+    return z3.If(n < 128, 1, 1 + ULEN(n / 128))
+
+
+def ubyte_body(n, j):
+    return z3.If(j <= 0, z3.If(n < 128, n % 128, n % 128 + 128), UBYTE(n / 128, j - 1))
+
+
+def slen_body(n):
+    return z3.If(_slast(n), 1, 1 + SLEN(n / 128))
+
+
+def sbyte_body(n, j):
+    return z3.If(j <= 0, z3.If(_slast(n), n % 128, n % 128 + 128), SBYTE(n / 128, j - 1))
+
+
+z3.RecAddDefinition(ULEN, [_n], ulen_body(_n))
+z3.RecAddDefinition(UBYTE, [_n, _j], ubyte_body(_n, _j))
+z3.RecAddDefinition(SLEN, [_n], slen_body(_n))
+z3.RecAddDefinition(SBYTE, [_n, _j], sbyte_body(_n, _j))
 
 _REAL = {"u.encode": leb128._U.encode, "i.encode": leb128._I.encode,
          "u.decode_reader": leb128._U.decode_reader, "i.decode_reader": leb128._I.decode_reader}
